@@ -227,6 +227,15 @@ func RunFunction(P *Program, name string, cfg *Config, so SolveOpts) *FuncReport
 		}
 		rep.Results = append(rep.Results, r)
 	}
+	if agg == nil && c != nil && defaultNoPanic != "" {
+		// no run-time check of the covered kinds in this function today: the obligation exists all the
+		// same, so that one appearing later fails something the ledger knows
+		if _, out := c.Flags["may_panic"]; !out {
+			if _, tr := c.Flags["trusted"]; !tr {
+				agg = &OblResult{Name: name + "#F2.no_panic", Family: "F2", Func: name, Status: "discharged", Backend: "syntactic", Paths: 1}
+			}
+		}
+	}
 	if agg != nil {
 		rep.Results = append(rep.Results, agg)
 	}
